@@ -72,6 +72,10 @@ type Server struct {
 	mu     sync.Mutex
 	log    []Request
 	rel    []Release
+	// WithdrawAfter > 0: from the WithdrawAfter+1-th listing on, the first release of the catalogue is no longer
+	// listed (its assets stay downloadable): the catalogue changes while a client is at work
+	WithdrawAfter int
+	listings      int
 	fault  *Fault
 	caCert *x509.Certificate
 	caKey  *ecdsa.PrivateKey
@@ -218,8 +222,15 @@ func (s *Server) handle(w http.ResponseWriter, r *http.Request, host string) {
 		ctype = "application/json"
 		page, _ := strconv.Atoi(r.URL.Query().Get("page"))
 		var out []map[string]interface{}
+		s.mu.Lock()
+		s.listings++
+		skipFirst := s.WithdrawAfter > 0 && s.listings > s.WithdrawAfter
+		s.mu.Unlock()
 		if page <= 1 {
-			for _, rel := range s.rel {
+			for ri, rel := range s.rel {
+				if skipFirst && ri == 0 {
+					continue
+				}
 				var assets []map[string]interface{}
 				for _, a := range rel.Assets {
 					assets = append(assets, map[string]interface{}{"id": a.ID, "name": a.Name, "size": len(a.Body), "state": "uploaded", "content_type": "application/octet-stream",
